@@ -16,6 +16,21 @@ def snapshot(d, t, sig=None):
     return L.isd_lit(i), i
 
 
+def render_lit(isd):
+    """literal of the regions of a snapshot that paint something (the C14 render specification, mirrored here for
+    Python-side comparisons): content, or a shown, non-transparent, visible background"""
+    import ttconv.style_properties as s
+    SP = s.StyleProperties
+    keep = []
+    for r in isd.iter_regions():
+        if len(r) > 0: keep.append(r); continue
+        bg = r.get_style(SP.BackgroundColor); op = r.get_style(SP.Opacity)
+        if (r.get_style(SP.ShowBackground) is s.ShowBackgroundType.always and bg is not None and bg.components[3] != 0
+                and op != 0 and r.get_style(SP.Visibility) is not s.VisibilityType.hidden):
+            keep.append(r)
+    return "[" + "; ".join(L.elem_lit(r, isd=True) for r in keep) + "]"
+
+
 HEADER = ("From TT Require Import Model.Doc Gen.StyleTables Model.Isd Model.IsdCases.\n"
           "Open Scope Z_scope.\n")
 
